@@ -184,38 +184,52 @@ Section Model.
 
   Definition default_threshold_q : Q := 1 # 100.
 
-  (* SPDCConfig::try_as_spdc.  The second component lists the fields the code would leave NaN / infinite. *)
+  (* SPDCConfig::try_as_spdc, as the composition of its steps (in the code's order):
+       crystal (angle 0 when "auto") -> pump -> signal -> poling -> crystal angle -> idler -> waist positions.
+     The second component of the result lists the fields the code would leave NaN / infinite. *)
+  Definition cfg_cs0 (c : spdc_cfg num) : crystal_setup num := crystal_of_cfg (c_crystal c).
+  Definition cfg_pump (c : spdc_cfg num) : beam num := pump_of_cfg (c_pump c) (cfg_cs0 c).
+  Definition signal_step (c : spdc_cfg num) : outcome (beam num) :=
+    beam_of_cfg (signal_polarization (cs_pm (cfg_cs0 c))) (c_signal c) (cfg_cs0 c).
+  Definition poling_step (c : spdc_cfg num) (signal : beam num) : outcome (poling num * list nonfinite) :=
+    poling_of_cfg (c_pp c) signal (cfg_pump c) (cfg_cs0 c).
+  Definition theta_step (c : spdc_cfg num) (signal : beam num) (pp : poling num) : outcome (crystal_setup num) :=
+    if is_auto (cc_theta_deg (c_crystal c)) then
+      if is_pol_off pp then
+        bind (optimum_theta (cfg_cs0 c) signal (cfg_pump c)) (fun th => Ok (set_crystal_theta (cfg_cs0 c) th))
+      else Err EAutoThetaWithPoling
+    else Ok (cfg_cs0 c).
+  Definition idler_step (c : spdc_cfg num) (signal : beam num) (cs : crystal_setup num) (pp : poling num)
+    : outcome (beam num * list nonfinite) :=
+    match c_idler c with
+    | Param ic => bind (beam_of_cfg (idler_polarization (cs_pm cs)) ic cs) (fun b => Ok (b, []))
+    | Auto => idler_optimum signal (cfg_pump c) cs pp
+    end.
+  Definition idler_focus_cfg (c : spdc_cfg num) : auto num :=
+    match c_idler c with Param ic => bc_waist_pos_um ic | Auto => Auto end.
+  Definition focus_step (cs : crystal_setup num) (b : beam num) (f : auto num) (which : nonfinite) : num * list nonfinite :=
+    match f with
+    | Param x => (explicit_focus x, [])
+    | Auto => waist_position cs b which
+    end.
+  Definition finish_spdc (c : spdc_cfg num) (signal : beam num) (pp : poling num) (nf_pp : list nonfinite)
+      (cs : crystal_setup num) (idler : beam num) (nf_i : list nonfinite) : spdc num * list nonfinite :=
+    let zi := focus_step cs idler (idler_focus_cfg c) NFWaistIdler in
+    let zs := focus_step cs signal (bc_waist_pos_um (c_signal c)) NFWaistSignal in
+    ({| s_crystal := cs; s_signal := signal; s_idler := idler; s_pump := cfg_pump c;
+        s_bandwidth := pc_bandwidth_nm (c_pump c) *' u_nano o;
+        s_power := pc_power_mw (c_pump c) *' u_milliw U;
+        s_threshold := match pc_threshold (c_pump c) with Some t => t | None => nQ o default_threshold_q end;
+        s_pp := pp; s_zs := fst zs; s_zi := fst zi;
+        s_deff := c_deff c *' u_pico o /' u_volt U |},
+     nf_pp ++ nf_i ++ snd zi ++ snd zs).
+
   Definition try_as_spdc (c : spdc_cfg num) : outcome (spdc num * list nonfinite) :=
-    let deff := c_deff c *' u_pico o /' u_volt U in
-    let threshold := match pc_threshold (c_pump c) with Some t => t | None => nQ o default_threshold_q end in
-    let theta_auto := is_auto (cc_theta_deg (c_crystal c)) in
-    let bandwidth := pc_bandwidth_nm (c_pump c) *' u_nano o in
-    let power := pc_power_mw (c_pump c) *' u_milliw U in
-    let cs0 := crystal_of_cfg (c_crystal c) in
-    let pump := pump_of_cfg (c_pump c) cs0 in
-    bind (beam_of_cfg (signal_polarization (cs_pm cs0)) (c_signal c) cs0) (fun signal =>
-    bind (poling_of_cfg (c_pp c) signal pump cs0) (fun '(pp, nf_pp) =>
-    bind (if theta_auto then
-            if is_pol_off pp then bind (optimum_theta cs0 signal pump) (fun th => Ok (set_crystal_theta cs0 th))
-            else Err EAutoThetaWithPoling
-          else Ok cs0) (fun cs =>
-    bind (match c_idler c with
-          | Param ic => bind (beam_of_cfg (idler_polarization (cs_pm cs)) ic cs) (fun b => Ok (b, []))
-          | Auto => idler_optimum signal pump cs pp
-          end) (fun '(idler, nf_i) =>
-    let '(zi, nf_zi) :=
-      match (match c_idler c with Param ic => bc_waist_pos_um ic | Auto => Auto end) with
-      | Param f => (explicit_focus f, [])
-      | Auto => waist_position cs idler NFWaistIdler
-      end in
-    let '(zs, nf_zs) :=
-      match bc_waist_pos_um (c_signal c) with
-      | Param f => (explicit_focus f, [])
-      | Auto => waist_position cs signal NFWaistSignal
-      end in
-    Ok ({| s_crystal := cs; s_signal := signal; s_idler := idler; s_pump := pump; s_bandwidth := bandwidth;
-           s_power := power; s_threshold := threshold; s_pp := pp; s_zs := zs; s_zi := zi; s_deff := deff |},
-        nf_pp ++ nf_i ++ nf_zi ++ nf_zs))))).
+    bind (signal_step c) (fun signal =>
+    bind (poling_step c signal) (fun ppn =>
+    bind (theta_step c signal (fst ppn)) (fun cs =>
+    bind (idler_step c signal cs (fst ppn)) (fun idn =>
+    Ok (finish_spdc c signal (fst ppn) (snd ppn) cs (fst idn) (snd idn)))))).
 
   (* ---- spdc_obj.rs: SPDC::try_as_optimum.
      Faithful to two quirks of the code: the optimum idler is computed with the OLD poling (self.pp), and the idler
@@ -259,33 +273,26 @@ Section Model.
     end%string.
 
   Definition trace_try_as_spdc (c : spdc_cfg num) : list (string * string) :=
-    let cs0 := crystal_of_cfg (c_crystal c) in
-    let pump := pump_of_cfg (c_pump c) cs0 in
-    let rs := beam_of_cfg (signal_polarization (cs_pm cs0)) (c_signal c) cs0 in
+    let rs := signal_step c in
     ("signal"%string, cls rs) ::
     match rs with
     | Ok signal =>
-      let rp := poling_of_cfg (c_pp c) signal pump cs0 in
       match c_pp c with
       | PCOff => []
-      | PCConfig Auto _ => [("optimum_poling_period"%string, cls (optimum_poling_period signal pump cs0))]
-      | PCConfig (Param _) _ => [("compute_sign"%string, cls (compute_sign signal pump cs0))]
+      | PCConfig Auto _ => [("optimum_poling_period"%string, cls (optimum_poling_period signal (cfg_pump c) (cfg_cs0 c)))]
+      | PCConfig (Param _) _ => [("compute_sign"%string, cls (compute_sign signal (cfg_pump c) (cfg_cs0 c)))]
       end ++
-      match rp with
+      match poling_step c signal with
       | Ok (pp, _) =>
-        let rc := if is_auto (cc_theta_deg (c_crystal c)) then
-                    if is_pol_off pp then bind (optimum_theta cs0 signal pump) (fun th => Ok (set_crystal_theta cs0 th))
-                    else Err EAutoThetaWithPoling
-                  else Ok cs0 in
         (if is_auto (cc_theta_deg (c_crystal c)) then
-           if is_pol_off pp then [("optimum_theta"%string, cls (optimum_theta cs0 signal pump))]
+           if is_pol_off pp then [("optimum_theta"%string, cls (optimum_theta (cfg_cs0 c) signal (cfg_pump c)))]
            else [("auto_theta_check"%string, "err:auto_theta_with_poling"%string)]
          else []) ++
-        match rc with
+        match theta_step c signal pp with
         | Ok cs =>
           match c_idler c with
-          | Param ic => [("idler_explicit"%string, cls (beam_of_cfg (idler_polarization (cs_pm cs)) ic cs))]
-          | Auto => [("idler_optimum"%string, cls (idler_optimum signal pump cs pp))]
+          | Param ic => [("idler_explicit"%string, cls (idler_step c signal cs pp))]
+          | Auto => [("idler_optimum"%string, cls (idler_step c signal cs pp))]
           end
         | _ => []
         end
